@@ -145,10 +145,25 @@ def run(chk: core.Check, replay=None) -> None:
                         chk.count(1, ("aligned", pb_["tid"]))
                         if both:
                             chk.stratum("event_on_a_recording_step")
+                    # (5) a request shorter than its recording step: the plain result is the muzzle row plus the closing row;
+                    #     the extra-data result of the same request must keep both and add the event rows in between
+                    ev_rows = [r for r in b["rows"] if int(r.flag) & 7 and not int(r.flag) & 8]
+                    if ev_rows and ev_rows[0].distance.raw_value / 12.0 > ms:
+                        xe = ev_rows[0].distance.raw_value / 12.0
+                        sh = copy.deepcopy(base)
+                        sh.update({"range_ft": xe + 2 * ms, "step_ft": 3 * (xe + 2 * ms), "extra": False})
+                        pa = fire(sh)
+                        pb_ = fire(dict(copy.deepcopy(sh), extra=True))
+                        fa = [scen.row_fp(r)[:-1] for r in pa["rows"]]
+                        fb = {scen.row_fp(r)[:-1] for r in pb_["rows"]}
+                        pairs.append({"tid": pb_["tid"], "ev": "Pair", "clause": "C11.PlainRowMissingInExtra", "ok": all(x in fb for x in fa)})
+                        chk.count(1, ("short", pb_["tid"]))
+                        if any(int(r.flag) & 7 for r in pb_["rows"]):
+                            chk.stratum("request_shorter_than_step_with_event")
     loopsuite.validate(chk, "C11", outs, pairs)
     chk.sample({"base": outs[0]["sc"], "variant": outs[1]["sc"], "pair_lines": pairs[:2]})
     chk.sample({"tlc_behaviour": {k: v for k, v in behs[0].items() if k != "consts"}})
-    chk.require_strata(["variant_time_step_below_dt", "variant_step_below_max_step", "variant_step_eq_max_step", "variant_shorter", "variant_coarser", "variant_finer", "variant_extra", "variant_timed", "extra_added_event_rows", "event_on_a_recording_step"])
+    chk.require_strata(["variant_time_step_below_dt", "variant_step_below_max_step", "variant_step_eq_max_step", "variant_shorter", "variant_coarser", "variant_finer", "variant_extra", "variant_timed", "extra_added_event_rows", "event_on_a_recording_step", "request_shorter_than_step_with_event"])
     chk.exhaustive = False
     chk.rule.append("design: Integrator.tla twin recorders (rows lie on the polyline of iteration points that no recorder influences); "
                     "spec->code: row emission rule of TLC behaviours on the real filter; code->spec: seeded real shots, each fired with "
